@@ -131,7 +131,7 @@ def classification(rep, F, tier):
     except KeyError as e:
         rep.bad("R11.2", "anchor", str(e))
         return
-    ex = Symex(F, no_inline=[r"line_intersection::proper_intersection$"] + HELPERS, max_paths=60000, budget_s=60)
+    ex = Symex(F, no_inline=[r"line_intersection::proper_intersection$", r"::orient2d$"] + HELPERS, max_paths=60000, budget_s=60)
     try:
         paths = [p for p in ex.run(fn) if p.kind == "ret"]
     except Unanalysable as e:
@@ -201,7 +201,7 @@ def agreement(rep, F, rule="R11.4"):
     except KeyError as e:
         rep.bad(rule, "anchor", str(e))
         return
-    ex = Symex(F, no_inline=HELPERS, max_paths=60000, budget_s=60)
+    ex = Symex(F, no_inline=HELPERS + [r"::orient2d$"], max_paths=60000, budget_s=60)
     try:
         paths = [p for p in ex.run(fn) if p.kind == "ret"]
     except Unanalysable as e:
@@ -261,7 +261,7 @@ def proper_point(rep, F):
     if ok:
         rep.ok("R11.6", "proper:envelope-or-endpoint[%d rows]" % len(paths))
     # nearest_endpoint: abstract valuations of the four distances
-    ex2 = Symex(F, no_inline=[r"point_line_euclidean_distance$"])
+    ex2 = Symex(F, no_inline=[r"point_line_euclidean_distance$"], concrete_iters=True, loop_bound=8)
     try:
         paths = [p for p in ex2.run(ne) if p.kind == "ret"]
     except Unanalysable as e:
